@@ -245,4 +245,43 @@ theorem removeCore_spec (w : World) (e : Entity) (l : Loc) (hK : KInv w) (hl : l
     rw [hto2, (node_dropRow _ _ _ hv.1 hv.2 t).1, hnodes2]
     exact ⟨rfl, rfl, rfl⟩
 
+
+/-- the index after a removal is the index after the swap-removal of the row: the later
+    clean-up steps retire empty tables only -/
+theorem removeCore_loc (w : World) (e : Entity) (l : Loc) (hK : KInv w) (hl : loc w e.id = some l)
+    (he : (rowAt w l.tbl l.row).ent = e) (j : Nat) :
+    loc (removeCore w e l) j = loc (dropRow w l.tbl l.row) j ∧
+    (removeCore w e l).index.size = w.index.size := by
+  have hv : validRow w l.tbl l.row := (hK.idx.fwd _ _ hl).1
+  have hdrop : ((({ (w.removeRowFix l.tbl l.row) with pool := (w.removeRowFix l.tbl l.row).pool.recycle e } : World)).setIndex e.id none)
+      = { dropRow w l.tbl l.row with pool := w.pool.recycle e } := by
+    unfold dropRow
+    simp only [he]
+    have : (w.removeRowFix l.tbl l.row).pool = w.pool := by
+      rw [removeRowFix_eq _ _ _ hv.1 hv.2]; split <;> rfl
+    rw [this]; rfl
+  unfold removeCore
+  simp only []
+  rw [hdrop]
+  generalize hw2 : ({ dropRow w l.tbl l.row with pool := w.pool.recycle e } : World) = w2
+  have hsz2 : w2.tables.size = w.tables.size := by rw [← hw2]; exact tables_size_dropRow _ _ _ hv.1 hv.2
+  have hk0 : KInv (dropRow w l.tbl l.row) :=
+    ⟨nodeInv_dropRow w hK.node _ _ hv.1 hv.2, graphInv_of_nodes (node_dropRow _ _ _ hv.1 hv.2 0).2 hK.graph,
+     dropRow_inv w hK.idx _ _ hv, tinv_dropRow w hK.tgt _ _ hv.1 hv.2⟩
+  have k2 : KInv w2 := by rw [← hw2]; exact kinv_congr (w := dropRow w l.tbl l.row) rfl rfl rfl hk0
+  have hloc2 : ∀ j, loc w2 j = loc (dropRow w l.tbl l.row) j := by intro j; rw [← hw2]; rfl
+  have hisz2 : w2.index.size = w.index.size := by
+    rw [← hw2]; unfold dropRow; simp only []
+    rw [removeRowFix_eq _ _ _ hv.1 hv.2]; split <;> simp [setIndex, setTable]
+  have hc3 : Cleaned w2 (if w2.flag e.id then (w2.cleanupTables e).setFlag e.id false else w2) := by
+    split
+    · have c := cleaned_cleanupTables w2 k2 e
+      exact Cleaned.trans c ⟨kinv_flags _ c.kinv _, of_setFlag _ _ _, rfl, rfl, fun _ => ⟨rfl, rfl⟩, fun _ h => h⟩
+    · exact Cleaned.refl w2 k2
+  generalize hw3 : (if w2.flag e.id then (w2.cleanupTables e).setFlag e.id false else w2) = w3 at hc3
+  have hc4 : Cleaned w3 (w3.cleanupTable l.tbl) := cleaned_cleanupTable w3 hc3.kinv l.tbl (by rw [hc3.tsize, hsz2]; exact hv.1)
+  have c := Cleaned.trans hc3 hc4
+  generalize hw4 : w3.cleanupTable l.tbl = w4 at c
+  exact ⟨by rw [SameRows.loc_eq c.same, hloc2], by rw [c.same.index, hisz2]⟩
+
 end Arche.Remove
